@@ -23,6 +23,9 @@
 #include <thread>
 #include <chrono>
 #include <cds/compiler/backoff.h>
+#if defined(KHIZMAX_LIBCDS_VERIF)
+#   include <cds_verif/sched.h>  // back-off iterations are reported to the model-checking scheduler
+#endif
 
 namespace cds {
     /// Different backoff schemes
@@ -78,6 +81,9 @@ namespace cds {
             //@cond
             void operator ()() const noexcept
             {
+#           if defined(KHIZMAX_LIBCDS_VERIF)
+                if ( cds_verif::active()) { cds_verif::backoff_report(); return; }
+#           endif
                 std::this_thread::yield();
             }
 
@@ -104,6 +110,9 @@ namespace cds {
             //@cond
             void operator ()() const noexcept
             {
+#           if defined(KHIZMAX_LIBCDS_VERIF)
+                if ( cds_verif::active()) { cds_verif::backoff_report(); return; }
+#           endif
 #            ifdef CDS_backoff_hint_defined
                 platform::backoff_hint();
 #            endif
@@ -133,6 +142,9 @@ namespace cds {
         //@cond
             void operator ()() const noexcept
             {
+#           if defined(KHIZMAX_LIBCDS_VERIF)
+                if ( cds_verif::active()) { cds_verif::backoff_report(); return; }
+#           endif
 #           if defined(CDS_backoff_hint_defined)
                 platform::backoff_hint();
 #           elif defined(CDS_backoff_nop_defined)
@@ -251,6 +263,10 @@ namespace cds {
             //@cond
             void operator ()() noexcept(noexcept(std::declval<spin_backoff>()()) && noexcept(std::declval<yield_backoff>()()))
             {
+#           if defined(KHIZMAX_LIBCDS_VERIF)
+                // one report per back-off call: the length of the pause is not modelled
+                if ( cds_verif::active()) { cds_verif::backoff_report(); return; }
+#           endif
                 if ( m_nExpCur <= traits::upper_bound ) {
                     for ( size_t n = 0; n < m_nExpCur; ++n )
                         m_bkSpin();
@@ -263,6 +279,14 @@ namespace cds {
             template <typename Predicate>
             bool operator()( Predicate pr ) noexcept( noexcept(std::declval<Predicate>()()) && noexcept(std::declval<spin_backoff>()()) && noexcept(std::declval<yield_backoff>()()))
             {
+#           if defined(KHIZMAX_LIBCDS_VERIF)
+                if ( cds_verif::active()) {
+                    if ( pr())
+                        return true;
+                    cds_verif::backoff_report();
+                    return false;
+                }
+#           endif
                 if ( m_nExpCur <= traits::upper_bound ) {
                     for ( size_t n = 0; n < m_nExpCur; ++n ) {
                         if ( m_bkSpin(pr))
@@ -385,6 +409,9 @@ namespace cds {
             //@cond
             void operator()() const
             {
+#           if defined(KHIZMAX_LIBCDS_VERIF)
+                if ( cds_verif::active()) { cds_verif::backoff_report(); return; }
+#           endif
                 std::this_thread::sleep_for( timeout );
             }
 
@@ -394,6 +421,10 @@ namespace cds {
                 for ( unsigned int i = 0; i < traits::timeout; i += 2 ) {
                     if ( pr())
                         return true;
+#               if defined(KHIZMAX_LIBCDS_VERIF)
+                    // same bounded number of polls; the sleep becomes a scheduler yield
+                    if ( cds_verif::active()) { cds_verif::backoff_report(); continue; }
+#               endif
                     std::this_thread::sleep_for( duration_type( 2 ));
                 }
                 return false;
